@@ -149,6 +149,8 @@ pub enum Menu {
     Overlap,
     /// client pointers (concrete, abstract and list targets) selected at several positions
     Pointers,
+    /// raw single-token mutations of the checked-in demo projects (literals and schema)
+    DemoMutations,
     /// the same client field / pointer defined several times (invalid programs; determinism of the diagnostics)
     Dups,
     /// declaration shapes: field / pointer on every kind of parent type x variable definitions x entrypoint on it
@@ -214,7 +216,7 @@ pub fn menu(ty: Ty, m: Menu) -> Vec<Atom> {
         (Ty::Pet, Menu::Args) => vec![a("id"), a("tag(style: \"s\", n: 1)"), a("t2: tag(style: \"it's\")"), av("t3: tag(n: $n)", &[("n", "Int")]), a("t4: tag(n: -1)")],
         (Ty::Node, Menu::Args) => vec![a("__typename")],
 
-        (_, Menu::Decls) | (_, Menu::Dups) => vec![a("id")],
+        (_, Menu::Decls) | (_, Menu::Dups) | (_, Menu::DemoMutations) => vec![a("id")],
         (Ty::Query, Menu::Pointers) => vec![
             o("me", Ty::User),
             Atom { text: "bestUser", child: Some(Ty::User), vars: &[], needs: Some("Query.bestUser") },
@@ -384,6 +386,8 @@ pub enum Decl {
     Raw { export: String, text: String },
     /// a fixed non-exported literal (entrypoint) given as text
     RawBare { text: String },
+    /// the whole program is a demo project with one token mutated (see demomut.rs)
+    DemoMutation { demo: String, target: String, index: usize, mutation: usize },
 }
 
 #[derive(Debug, Clone, Serialize, Deserialize, PartialEq, Eq)]
@@ -413,11 +417,15 @@ impl Program {
                 Decl::Entrypoint { ty, name } => (None, format!("entrypoint {}.{}", ty.name(), name)),
                 Decl::Raw { export, text } => (Some(export.clone()), text.clone()),
                 Decl::RawBare { text } => (None, text.clone()),
+                Decl::DemoMutation { demo, target, index, mutation } => (None, crate::demomut::apply(demo, target, *index, *mutation).1),
             })
             .collect()
     }
 
     pub fn project(&self) -> Project {
+        if let Some(Decl::DemoMutation { demo, target, index, mutation }) = self.decls.first() {
+            return crate::demomut::apply(demo, target, *index, *mutation).0;
+        }
         let lits = self.literals();
         let refs: Vec<(Option<&str>, String)> = lits.iter().map(|(e, l)| (e.as_deref(), l.clone())).collect();
         Project { schema: SCHEMA.to_string(), extension: Some(EXTENSION.to_string()), files: vec![("a.ts".to_string(), source_file(&refs))], options: serde_json::json!({}) }
@@ -450,6 +458,25 @@ pub fn programs(m: Menu, k: usize) -> Vec<Program> {
                         ep.clone(),
                     ],
                 });
+            }
+        }
+        return out;
+    }
+    if m == Menu::DemoMutations {
+        for demo in crate::demomut::DEMOS {
+            let d = crate::demomut::load(demo);
+            for target in ["literal", "schema"] {
+                // the big schemas (github: 61k tokens, vite: 4.7k) only at the higher levels
+                let n = crate::demomut::token_count(&d, target);
+                if target == "schema" && (n > 10_000 || (n > 1_000 && k < 3)) {
+                    continue;
+                }
+                let muts = if target == "schema" { crate::demomut::mutations(k.min(2)) } else { crate::demomut::mutations(k) };
+                for index in 0..n {
+                    for mutation in 0..muts {
+                        out.push(Program { menu: m, decls: vec![Decl::DemoMutation { demo: demo.to_string(), target: target.to_string(), index, mutation }] });
+                    }
+                }
             }
         }
         return out;
